@@ -279,8 +279,11 @@ impl<T: Types> FlushWorker<T> {
         }
 
         while files.len() > 1 {
-            let f = files.remove(0);
-            f.f.sync_data()?;
+            // Forget an older file only after it is synced: if the sync fails
+            // the file must be synced again by the next flush, otherwise a
+            // later flush would be acknowledged with its data never synced.
+            files[0].f.sync_data()?;
+            files.remove(0);
         }
 
         // The second last and before are all closed,
